@@ -967,6 +967,16 @@ func ruleCompletionPaths(c *Ctx, a *cacheAnchors, want map[string]bool) {
 			if !isEmptySlice(L) {
 				report("completes-on-every-path", "returns with waiter list "+prettyTerm(L)+" not cleared on "+where)
 			}
+			// the record's lifetime in the store is that of the entry: never a duration known to be <= 0 while the
+			// entry itself got a positive one (badger / mongo drop such a record at once, redis keeps it for ever)
+			for _, e := range pr.Events {
+				if e.Kind == "invoke" && e.Method != nil && e.Method.Name() == "Set" && len(e.Args) == 4 {
+					factsE := factsAt(c.P, pr, e)
+					if iv := factsE.Interval(signBase(e.Args[3])); iv.Hi != nil && iv.Hi.Sign() <= 0 {
+						report("persist-ttl", "the record is written with a store lifetime of "+prettyTerm(e.Args[3])+", known to be <= 0, although the entry is kept in memory for a positive period: once the entry is evicted the marker is gone and the key is probed (and queued) again inside its period, on "+where)
+					}
+				}
+			}
 			// what is persisted is the final state: no state field is written after the record was saved
 			saveAt := -1
 			for i, e := range pr.Events {
@@ -1022,18 +1032,35 @@ func ruleCompletionPaths(c *Ctx, a *cacheAnchors, want map[string]bool) {
 				if isClock(y) {
 					x, y = y, x
 				}
+				var Tconv *Term
 				if isClock(x) {
 					T = y
+					Tconv = y
 					for T.Op == "conv" {
 						T = T.Args[0]
 					}
 					okE = true
 				}
+				_ = Tconv
 			}
 			if !okE {
 				report("expiry-value", "expiry "+prettyTerm(E)+" is not (clock read in this call) + ttl on "+where)
 			} else {
 				iv := f.Interval(T)
+				// the bound may have been established on the converted value (int64(ttl) > 0)
+				if iv.Lo == nil || iv.Lo.Sign() < 1 {
+					for u := E.Args[0]; ; {
+						if !isClock(u) {
+							if iv2 := f.Interval(u); iv2.Lo != nil && iv2.Lo.Sign() >= 1 {
+								iv = iv2
+							}
+						}
+						if u == E.Args[1] {
+							break
+						}
+						u = E.Args[1]
+					}
+				}
 				if iv.Lo == nil || iv.Lo.Sign() < 1 {
 					report("ttl-positive", fmt.Sprintf("ttl %s added to the clock has range %s: a non-positive period makes the marker/entry lapse at once on %s", prettyTerm(T), iv, where))
 				}
@@ -1081,7 +1108,7 @@ func ruleCompletionPaths(c *Ctx, a *cacheAnchors, want map[string]bool) {
 				}
 			}
 		}
-		for _, r := range []string{"completes-on-every-path", "locked", "expiry-value", "ttl-positive", "no-wrap", "stores-response", "persist-final"} {
+		for _, r := range []string{"completes-on-every-path", "locked", "expiry-value", "ttl-positive", "no-wrap", "stores-response", "persist-final", "persist-ttl"} {
 			if want != nil && !want[r] {
 				continue
 			}
@@ -1161,4 +1188,23 @@ func appendedContains(st *State, L, v *Term) bool {
 		}
 	}
 	return false
+}
+
+// signBase strips conversions and multiplications by a positive constant: the result has the sign of t.
+func signBase(t *Term) *Term {
+	for i := 0; i < 8; i++ {
+		u := stripConvTerm(t)
+		if u.Op == "bin" && u.Name == "*" && len(u.Args) == 2 {
+			if k, ok := u.Args[1].IntVal(); ok && k > 0 {
+				t = u.Args[0]
+				continue
+			}
+			if k, ok := u.Args[0].IntVal(); ok && k > 0 {
+				t = u.Args[1]
+				continue
+			}
+		}
+		return u
+	}
+	return t
 }
